@@ -2001,6 +2001,108 @@ def stream_prune(chk, n):
     chk.compare("dr.run pruning", cases, impl, model)
 
 
+# ----------------------------------------------------------------------------- several loads, small match budget
+
+def budget_expected(lines, table):
+    """today's rule, stated for patterns no line shares: of the lines containing a pattern the LAST `max_match` stay,
+    all kept lines in their original order"""
+    keep = set()
+    for pat, n in table.items():
+        idx = [i for i, l in enumerate(lines) if pat in l]
+        keep.update(idx[-n:])
+    return [lines[i] for i in sorted(keep)]
+
+
+def stream_filter_budget(chk, n):
+    """an archive (collected without filters under a plain context) of a filterable single-output and a filterable
+    multi-output text spec; then analysis-time add_filter(spec, pattern, max_match=N) with N in 1..3, and SEVERAL loads in
+    this one process: every element in turn, the archive hydrated three times, further providers built on the same data.
+    Every load must deliver what the first load of a fresh process delivers; the filter table comes out as it went in."""
+    rng = chk.rng
+    for ci in range(n):
+        tmp = tempfile.mkdtemp(prefix="c11fb-")
+        src, out = os.path.join(tmp, "src"), os.path.join(tmp, "out")
+        os.makedirs(src)
+        os.makedirs(out)
+        case = {"op": "budget", "seed": rng.getrandbits(32)}
+        r = __import__("random").Random(case["seed"])
+        try:
+            class Ctx(ExecutionContext):
+                pass
+            pats = ["PA%d_" % uniq(), "PB%d_" % uniq()][:r.choice([1, 2])]
+            table = dict((p_, r.choice([1, 1, 2, 3])) for p_ in pats)
+
+            def gen(nlines):
+                return ["%s %s %s" % (gen_word(r, 3), r.choice(pats + ["zz"]), gen_word(r, 4)) for _ in range(nlines)]
+            files = {"/f/single.log": gen(r.choice([4, 8, 12]))}
+            for j in range(r.choice([2, 3, 4])):
+                files["/f/m/e%d.log" % j] = gen(r.choice([2, 4, 6]))
+            for path, lines in files.items():
+                os.makedirs(os.path.dirname(src + path), exist_ok=True)
+                with open(src + path, "w") as fh:
+                    fh.write("".join(l + "\n" for l in lines))
+            mod = "c11fb_%d" % uniq()
+            Specs = SpecSetMeta("Specs", (SpecSet,), {"__module__": mod, "one": RegistryPoint(filterable=True),
+                                                      "many": RegistryPoint(multi_output=True, filterable=True)})
+            SpecSetMeta("Impl", (Specs,), {"__module__": mod, "one": simple_file("/f/single.log", context=Ctx),
+                                           "many": glob_file("/f/m/*.log", context=Ctx)})
+            broker = dr.Broker()
+            ctx = Ctx(root=src)
+            broker[Ctx] = ctx
+            broker.add_observer(Hydration(out, ctx).make_persister({Specs.one, Specs.many}))
+            dr.run([Specs.one, Specs.many], broker)
+            with open(os.path.join(out, "insights_archive.txt"), "w"):
+                pass
+            # analysis time: the filters arrive now, with a small budget
+            for p_, n_ in table.items():
+                filters.add_filter(Specs.one, p_, max_match=n_)
+                filters.add_filter(Specs.many, p_, max_match=n_)
+            want_one = budget_expected(files["/f/single.log"], table)
+            want_many = [budget_expected(files[k], table) for k in sorted(files) if k.startswith("/f/m/")]
+            total = sum(sum(1 for l in files[k] if any(p_ in l for p_ in pats)) for k in files if k.startswith("/f/m/"))
+            chk.case(("budget", case["seed"]), True)
+            chk.count("budget:multi-output elements together have %s matching lines than the budget" % ("MORE" if total > min(table.values()) else "no more"))
+
+            def table_ok(where):
+                for pt in (Specs.one, Specs.many):
+                    if dict(filters.get_filters(pt, True)) != table:
+                        chk.failure("the filter table of the spec changed across a load (%s): %r, it went in as %r"
+                                    % (where, dict(filters.get_filters(pt, True)), table), case)
+                        return False
+                return True
+            for k in range(3):           # the same archive, three times, by this one process
+                if k < 2:
+                    b2, err = hydrate_archive(out, False)
+                else:
+                    b2, err = hydrate_archive(out, True)
+                if err or Specs.one not in b2 or Specs.many not in b2:
+                    chk.failure("load %d of the archive did not yield both specs (%s)" % (k + 1, err), case)
+                    break
+                provs = [b2[Specs.one]] + list(b2[Specs.many])
+                wants = [want_one] + want_many
+                # further providers on the same data, as a second reader of the spec would build them
+                for p_, w_ in list(zip(provs, wants)):
+                    provs.append(SerializedOutputProvider(p_.relative_path, root=p_.root, ctx=p_.ctx, ds=p_.ds))
+                    wants.append(w_)
+                bad = False
+                for j, (p_, w_) in enumerate(zip(provs, wants)):
+                    got = list(p_.content)
+                    chk.count("budget:loads compared")
+                    if got != w_:
+                        chk.failure("load %d, provider %d of a filterable spec (budget %r) delivers %d lines, the first load of a fresh "
+                                    "process delivers %d: %r vs %r" % (k + 1, j, table, len(got), len(w_), got[:4], w_[:4]), case)
+                        bad = True
+                        break
+                    if dict(p_._filters) != table:
+                        chk.failure("the filter table a provider shares with the others of its spec changed: %r" % dict(p_._filters), case)
+                        bad = True
+                        break
+                if bad or not table_ok("load %d" % (k + 1)):
+                    break
+        finally:
+            shutil.rmtree(tmp, ignore_errors=True)
+
+
 # ----------------------------------------------------------------------------- raw results around MAX_CONTENT_SIZE
 
 def stream_big_raw(chk, sizes_all):
@@ -2140,6 +2242,7 @@ def run(chk):
     stream_names(chk, 400 if quick else 20000)
     stream_json(chk, 300 if quick else 20000)
     stream_big_raw(chk, [-1, 0, 1, 4096])
+    stream_filter_budget(chk, 40 if quick else 1500)
 
     def fail(desc_, case, finding):
         chk.failure(desc_, case, finding=finding)
@@ -2250,6 +2353,18 @@ def replay(data):
         bad = not lines_equal_up_to_one_trailing_empty(c["lines"], got)
     elif c.get("op") == "read":
         bad = False
+    elif c.get("op") == "budget":
+        from harness.common import Check
+
+        class _R(object):          # replays exactly the recorded case: the stream draws one 32-bit seed per case
+            def getrandbits(self, n_):
+                return c["seed"]
+        probe = Check("C11", "quick", 0)
+        probe.rng = _R()
+        stream_filter_budget(probe, 1)
+        for f_ in probe.failures:
+            print("ORACLE:", f_["desc"])
+        bad = bool(probe.failures)
     elif c.get("op") == "bigraw":
         from harness.common import Check
         probe = Check("C11", "quick", 0)
